@@ -11,15 +11,15 @@ import (
 // ---------------- context model ----------------
 
 type CtxObj struct {
-	Obj      *Object
-	Name     string
-	Parent   *RefV // alts of *CtxObj / nil (cancellation parent)
-	Own      *Cell // Bool: cancelled directly
-	DoneCh   *ChanObj
-	ValKey   Value
-	ValVal   Value
-	ValFrom  *RefV // where Value lookups continue
-	Root     bool
+	Obj     *Object
+	Name    string
+	Parent  *RefV // alts of *CtxObj / nil (cancellation parent)
+	Own     *Cell // Bool: cancelled directly
+	DoneCh  *ChanObj
+	ValKey  Value
+	ValVal  Value
+	ValFrom *RefV // where Value lookups continue
+	Root    bool
 }
 
 type AfterReg struct {
